@@ -44,7 +44,18 @@ pub struct PropRun {
 /// C20 says the counter never underflows: with overflow checks on, an underflow of the send buffer counter is a panic in packet_sender.rs.
 fn c20_underflow(p: &str, ctx: &str) -> Violation {
     if p.contains("subtract with overflow") && p.contains("packet_sender.rs") { Violation { clause: "C20.underflow".into(), sig: "C20.underflow".into(), detail: format!("{}: the send buffer counter underflowed: {}", ctx, p) } }
-    else { Violation { clause: "C20.other-panic".into(), sig: "C20.other-panic:not-a-C20-verdict".into(), detail: String::new() } }
+    else { Violation { clause: "C20.other-panic".into(), sig: "C20.other-panic:not-a-verdict".into(), detail: String::new() } }
+}
+
+/// C06 bounds what the sender keeps outstanding (fragment-rounded bytes, packets in its transfer window) and what the receiver accounts for.
+/// The build has overflow checks and debug assertions on, so when that accounting goes wrong the counters cannot be observed wrong: the
+/// subtraction underflows, or the transfer-window slot of the oldest outstanding packet is found occupied when one packet too many is
+/// taken in. Such a panic raised by the accounting code itself is the violation as this build shows it.
+fn c06_accounting(p: &str, ctx: &str) -> Violation {
+    let arith = p.contains("with overflow");
+    if p.contains("packet_sender.rs") && (arith || p.contains("window[window_idx].is_none()")) { Violation { clause: "C06.sender-accounting".into(), sig: "C06.sender-accounting".into(), detail: format!("{}: the sender's accounting of outstanding packets / bytes failed its own consistency check: {}", ctx, p) } }
+    else if p.contains("assembly_window") && arith { Violation { clause: "C06.receiver-accounting".into(), sig: "C06.receiver-accounting".into(), detail: format!("{}: the receiver's allocation counter over/underflowed: {}", ctx, p) } }
+    else { Violation { clause: "C06.other-panic".into(), sig: "C06.other-panic:not-a-verdict".into(), detail: String::new() } }
 }
 
 /// Properties that promise that something happens (delivery, events, agreement, release of capacity): an execution in which the
@@ -103,6 +114,7 @@ fn run_check(property: &str, tier: &str) -> i32 {
     ex.sample_every = 0;
     if property == "C03" { ex.panic_to_violation = Some(c03::panic_violation); }
     if property == "C20" { ex.panic_to_violation = Some(c20_underflow); }
+    if property == "C06" { ex.panic_to_violation = Some(c06_accounting); }
     if PROMISING.contains(&property) { let _ = CURRENT_PROPERTY.set(property.to_string()); ex.panic_to_violation = Some(aborted_by_panic); }
     install_panic_hook();
     start_watchdog(&ex, property.to_string());
